@@ -9,7 +9,7 @@ From FFSM2 Require Import Model.TaskList Model.BitArray Model.BitStream Model.Pl
   Proofs.SerialProofs Proofs.LogProofs Proofs.MachineTop Model.Multi Generated.InitFacts Proofs.ConstructProofs Proofs.LifeMonitor Proofs.ActivationRounds Proofs.IndexSafety Proofs.FeatureProofs Model.Script Proofs.Contract Proofs.Histories Proofs.StatusBits Proofs.Worlds Model.Cxx Generated.LeafCode Proofs.LeafTactics Proofs.LeafConsts Proofs.LeafCodeTaskList Proofs.LeafCodeStream Proofs.LeafCodeWide.
 Import ListNotations."""
 # the translated PlanT (long symbolic runs): only the properties that state something about it import it, so that a cold build of any other property does not wait for it
-IMP_PLAN = IMP.replace("Proofs.LeafCodeWide.", "Proofs.LeafCodeWide Proofs.LeafCodePlan Proofs.LeafCodePlanRemove Proofs.LeafCodePlanAppend Proofs.LeafCodePlanInv.")
+IMP_PLAN = IMP.replace("Proofs.LeafCodeWide.", "Proofs.LeafCodeWide Proofs.LeafCodePlan Proofs.LeafCodePlanRemove Proofs.LeafCodePlanAppend Proofs.LeafCodePlanChange Proofs.LeafCodePlanInv.")
 
 VOC = ("Vocabulary: Ready cfg s a = the machine is at a point where requests are processed (or between API calls) with state a < n active, "
        "registry.requested = INVALID, the outstanding request (if any) names a state, the plan is well formed; Inv = the same without naming a. "
@@ -291,6 +291,7 @@ _PLT = ("the tie to the source, by proof (DESIGN.md 4.7): the body of PlanT<Args
         "preserves: plan_append_spec, plan_remove_spec above) stays inside tasks and taskLinks and computes exactly the model's %s, for every capacity up to 255")
 SPECS["C10"][1].extend([
    ("C10_source_plan_append_is_the_model", "src_Plan_append_inv", _PLT % ("append(origin, destination)", "plan_append (capacity test, planExists, slot allocation, linking at the end of the plan order)")),
+   ("C10_source_plan_change_is_the_model", "src_Plan_change_inv", "... and so does the public entry point plan.change(origin, destination), whose body `return append(origin, destination);` the translator inlines as well: the term is everything a call of change() executes"),
    ("C10_source_plan_remove_is_the_model", "src_Plan_remove_inv", _PLT % ("remove(index)", "plan_remove (unlinking from the plan order, clearing the link, returning the slot)")),
    ("C10_source_plan_emptiness_test_is_the_model", "src_Plan_nonempty_inv", "explicit operator bool() of PlanT, as translated from the current source: true exactly when the plan order is non-empty"),
    ("C10_source_plan_every_history", "src_Plan_every_history", "over whole histories: any in-contract sequence of append / remove-a-task-of-the-plan from a freshly constructed PlanDataT, executed by running the translated member functions one after the other on the object (src_prun; None would be a fault), never faults, returns what the model returns (the bool of every append) and leaves, object for object, the model's plan data - which satisfies PlanInv, so the capacity / order / no-leak statements of this file describe what the code in /repo does"),
